@@ -109,13 +109,13 @@ def build_tools(ctx):
     rc, out = sh(["go", "build", "-modfile", modfile, "-tags", "verif", "-o", HARNESS, "."], cwd=hdir, env=GOENV)
     ctx.harness_ok = rc == 0
     ctx.harness_log = out
-    rc, out = sh(["lake", "build", "driver"], cwd=LEAN)
+    rc, out = sh(["lake", "build", f"driver_{ctx.prop.lower()}"], cwd=LEAN)
     ctx.driver_ok = rc == 0
     ctx.driver_log = out
     if ctx.driver_ok:
         import shutil
         DRIVER = os.path.join(run_dir, "driver")
-        shutil.copy2(os.path.join(LEAN, ".lake", "build", "bin", "driver"), DRIVER)
+        shutil.copy2(os.path.join(LEAN, ".lake", "build", "bin", f"driver_{ctx.prop.lower()}"), DRIVER)
     if not ctx.harness_ok:
         ctx.log("harness does not build against the repository:\n" + ctx.harness_log[-3000:])
     if not ctx.driver_ok:
@@ -234,12 +234,12 @@ def run_cases(ctx, prop, cases_text, want_spec=True, timeout=3600):
                   env=dict(os.environ, GOMEMLIMIT="8GiB"))
     if rc != 0:
         ctx.log(f"harness exec exited {rc}: {impl[-500:]}")
-    rc, model = sh([DRIVER, prop], inp=data, timeout=timeout)
+    rc, model = sh([DRIVER], inp=data, timeout=timeout)
     if rc != 0:
         ctx.log(f"driver exited {rc}: {model[-500:]}")
     spec = None
     if want_spec:
-        rc, spec = sh([DRIVER, prop, "spec"], inp=data, timeout=timeout)
+        rc, spec = sh([DRIVER, "spec"], inp=data, timeout=timeout)
     n = len([l for l in cases_text.split("\n") if l])
     def norm(s):
         ls = s.split("\n")
